@@ -138,6 +138,8 @@ Definition required_base : list production := [
   ("shortcut_sequence", ["shortcut_start"; "NUM_MULTIPLY"]);
   ("shortcut_sequence", ["shortcut_start"; "NUM_INTERPOLATE"; "padding"; "number_phrase"]);
   ("shortcut_sequence", ["shortcut_start"; "INTERPOLATE"; "padding"; "number_phrase"]);
+  ("shortcut_sequence", ["shortcut_start"; "NUM_INTERPOLATE"; "padding"; "null_phrase"]);
+  ("shortcut_sequence", ["shortcut_start"; "INTERPOLATE"; "padding"; "null_phrase"]);
   ("shortcut_sequence", ["shortcut_start"; "NUM_LOG_INTERPOLATE"; "padding"; "number_phrase"]);
   ("shortcut_sequence", ["shortcut_start"; "LOG_INTERPOLATE"; "padding"; "number_phrase"]);
   ("shortcut_sequence", ["NUM_JUMP"]);
@@ -335,15 +337,22 @@ Proof.
       * rule "shortcut_sequence" ["shortcut_start"; "REPEAT"]. apply DF_cons; [assumption|dend].
     + (* multiply *) simpl.
       rule "shortcut_sequence" ["shortcut_start"; "NUM_MULTIPLY"]. apply DF_cons; [assumption|dend].
-    + (* interpolate *)
-      assert (Hw : Derives G "number_phrase" [fst (num_tok w)]).
-      { apply (number_phrase_derives w None Hok). }
+    + (* interpolate: the end point may be zero *)
       unfold nitem_toks. rewrite !classes_app. change (classes [num_tok w]) with [fst (num_tok w)].
-      destruct n; simpl app.
-      * rule "shortcut_sequence" ["shortcut_start"; "NUM_INTERPOLATE"; "padding"; "number_phrase"].
-        apply DF_cons; [assumption|]. dtok. apply DF_cons; [apply pad_derives|]. apply DF_last. exact Hw.
-      * rule "shortcut_sequence" ["shortcut_start"; "INTERPOLATE"; "padding"; "number_phrase"].
-        apply DF_cons; [assumption|]. dtok. apply DF_cons; [apply pad_derives|]. apply DF_last. exact Hw.
+      destruct (real_zero w) eqn:Ez.
+      * assert (Hw : Derives G "null_phrase" [fst (num_tok w)]) by apply (null_phrase_derives w None Ez).
+        destruct n; simpl app.
+        -- rule "shortcut_sequence" ["shortcut_start"; "NUM_INTERPOLATE"; "padding"; "null_phrase"].
+           apply DF_cons; [assumption|]. dtok. apply DF_cons; [apply pad_derives|]. apply DF_last. exact Hw.
+        -- rule "shortcut_sequence" ["shortcut_start"; "INTERPOLATE"; "padding"; "null_phrase"].
+           apply DF_cons; [assumption|]. dtok. apply DF_cons; [apply pad_derives|]. apply DF_last. exact Hw.
+      * assert (Hw : Derives G "number_phrase" [fst (num_tok w)]).
+        { apply (number_phrase_derives w None). unfold nonzero. rewrite Ez. reflexivity. }
+        destruct n; simpl app.
+        -- rule "shortcut_sequence" ["shortcut_start"; "NUM_INTERPOLATE"; "padding"; "number_phrase"].
+           apply DF_cons; [assumption|]. dtok. apply DF_cons; [apply pad_derives|]. apply DF_last. exact Hw.
+        -- rule "shortcut_sequence" ["shortcut_start"; "INTERPOLATE"; "padding"; "number_phrase"].
+           apply DF_cons; [assumption|]. dtok. apply DF_cons; [apply pad_derives|]. apply DF_last. exact Hw.
     + (* log interpolate *)
       assert (Hw : Derives G "number_phrase" [fst (num_tok w)]).
       { apply (number_phrase_derives w None Hok). }
